@@ -3,7 +3,7 @@
    andb/orb are inlined; nat, positive, Z, Q, Qc stay the extracted inductives. *)
 Require Extraction.
 Require Import ExtrOcamlBasic.
-From AmiscV Require Import Misc Shape Order Sys Refine Grid Cost Sched Codec Fault Field QcInst Lagr Transf QcRun SysRun Select Train Graph Bounds.
+From AmiscV Require Import Misc Shape Order Sys Refine Grid Cost Sched Codec Fault Field QcInst Lagr Transf QcRun SysRun Select Train Graph Bounds Search.
 Extraction Language OCaml.
 Separate Extraction
   Misc.run_trace Misc.st0 Misc.lookahead Misc.is_downward_closed Misc.replay Misc.accepted
@@ -23,4 +23,5 @@ Separate Extraction
   Select.training_rows Select.training_rows_former
   Train.trun Train.tcrash Train.tstep Train.trun_interrupted Train.t0 Train.batch_of Train.split_idx Crash.crash_store
   Graph.edges Graph.system_sccs Graph.system_plan_ok Graph.reaches Graph.is_loop
-  Bounds.fit_bounds Bounds.refine_step Bounds.estimate Bounds.upd.
+  Bounds.fit_bounds Bounds.refine_step Bounds.estimate Bounds.upd
+  Search.search Search.need_to_search.
